@@ -225,7 +225,10 @@ impl<TStdlib: Stdlib, TStdIn: Input, TStdOut: Printer, TLpt1: Printer> Interpret
                 },
                 Err(e) => {
                     #[cfg(feature = "verif")]
-                    self.verif.errors.push(i);
+                    {
+                        self.verif.errors.push(i);
+                        self.verif.error_steps.push(self.verif.steps);
+                    }
                     self.last_error_code = Some(e.err().get_code());
                     if !matches!(ctx.error_handler, ErrorHandler::None) {
                         // drop what the failed statement has left on the stacks
